@@ -12,7 +12,7 @@
     DocsText / RulesText / GrammarText g t : `t` is a layout of the grammar `g`: leading trivia,
                      `//!` lines, rules (with their `///` lines), trailing `///` lines; after every
                      token and after the line feed of every doc line any trivia.  Fixed layout only
-                     inside doc lines (marker, line, `\n`) and inside literals (`spell`).
+                     inside doc lines (marker, optional blank, line, `\n`) and inside literals (`spell`).
     spellAllWith / docsWith / SRule.prettyWith / SGrammar.prettyWith lead sep :
                      the printer with an explicit separator `sep i` behind the `i`-th item
                      (doc lines and tokens counted together from 0)
@@ -46,10 +46,12 @@ inductive Sc : List KV → Text → Text → Prop
   | cons (kv : KV) {kvs : List KV} {ws t tl : Text} : IsTrivia ws → Sc kvs t tl →
       Sc (kv :: kvs) (spell kv ++ (ws ++ t)) tl
 
-/-- doc lines with marker `m`, each followed by trivia, then `tl` -/
+/-- doc lines with marker `m` (marker, optional blank, line, line feed), each followed by
+    trivia, then `tl` -/
 def DocsText (m : Text) : List Text → Text → Text → Prop
   | [], t, tl => t = tl
-  | l :: ls, t, tl => ∃ ws t', IsTrivia ws ∧ t = m ++ (l ++ 10 :: (ws ++ t')) ∧ DocsText m ls t' tl
+  | l :: ls, t, tl => ∃ sp ws t', DocSp sp l ∧ IsTrivia ws ∧ t = m ++ (sp ++ (l ++ 10 :: (ws ++ t'))) ∧
+      DocsText m ls t' tl
 
 /-- the tokens of a rule without its doc comments -/
 def SRule.headKV (r : SRule) : List KV :=
@@ -72,10 +74,10 @@ def spellAllWith (sep : Nat → Text) : Nat → List KV → Text
   | _, [] => []
   | i, kv :: r => spell kv ++ (sep i ++ spellAllWith sep (i + 1) r)
 
-/-- doc line `i` (counted from `i0`): marker, line, line feed, `sep i` -/
+/-- doc line `i` (counted from `i0`): marker, blank, line, line feed, `sep i` -/
 def docsWith (sep : Nat → Text) (m : Text) : Nat → List Text → Text
   | _, [] => []
-  | i, l :: ls => m ++ (l ++ 10 :: (sep i ++ docsWith sep m (i + 1) ls))
+  | i, l :: ls => m ++ 32 :: (l ++ 10 :: (sep i ++ docsWith sep m (i + 1) ls))
 
 /-- number of items (doc lines and tokens) of a rule -/
 def SRule.items (r : SRule) : Nat := r.docs.length + r.headKV.length
